@@ -128,9 +128,14 @@ func (mbs *metadataPartStorage) AppendObject(ctx context.Context, bucketName sto
 		if err != nil && !errors.As(err, &currentDeleteMarkerErr) && err != storage.ErrNoSuchKey {
 			return err
 		}
-		if currentDeleteMarkerErr != nil {
+		if currentDeleteMarkerErr != nil || (existingObject != nil && existingObject.IsDeleteMarker) {
 			existingObject = nil
 		}
+		// Only the null version of a bucket that is not versioning-enabled is
+		// extended in place. A current version that carries a version id (written
+		// while versioning was enabled) is immutable: the append then writes a new
+		// (null) version that shares the unchanged prefix.
+		writesNewVersion := versioningEnabled || (existingObject != nil && existingObject.VersionID != nil && *existingObject.VersionID != "null")
 		if existingObject != nil && !objectPartManifestComplete(existingObject) {
 			return storage.ErrNoSuchKey
 		}
@@ -210,7 +215,7 @@ func (mbs *metadataPartStorage) AppendObject(ctx context.Context, bucketName sto
 		}
 
 		if existingObject != nil {
-			if versioningEnabled {
+			if writesNewVersion {
 				// The new version shares the unchanged prefix. Pre-acquiring registry
 				// references prevents a concurrent delete from condemning those parts.
 				allParts = make([]metadatastore.Part, 0, len(existingObject.Parts)+1)
@@ -268,7 +273,7 @@ func (mbs *metadataPartStorage) AppendObject(ctx context.Context, bucketName sto
 		}
 		if existingObject != nil {
 			// Appends preserve the object's metadata, tags and storage class. A new
-			// version written by the append (versioning enabled) has to carry them.
+			// version written by the append has to carry them.
 			updatedObject.Metadata = existingObject.Metadata
 			updatedObject.Tags = existingObject.Tags
 			updatedObject.StorageClass = existingObject.StorageClass
